@@ -22,7 +22,8 @@ Theorem C19_lock_until_finished : forall lab x y l,
   ktrans lab x y -> ks_lock x = Some l ->
   (exists l', ks_lock y = Some l' /\ l_ts (ll_rec l') = l_ts (ll_rec l)) \/
   (ks_lock y = None /\ exists r, In r (ks_recs y) /\ lr_start r = l_ts (ll_rec l) /\
-                                 (lab = KRollback (l_ts (ll_rec l)) \/ exists cv, lab = KCommit (l_ts (ll_rec l)) cv)).
+                                 (lab = KRollback (l_ts (ll_rec l)) \/ (exists cv, lab = KCommit (l_ts (ll_rec l)) cv) \/
+                                  lab = KFinish (l_ts (ll_rec l)))).
 Proof. exact lock_until_finished. Qed.
 Print Assumptions C19_lock_until_finished.
 
@@ -43,9 +44,12 @@ Proof. exact lock_not_finished. Qed.
 Print Assumptions C19_lock_never_reappears.
 
 (** CheckTxnStatus rolls the primary back iff its lock has a TTL and
-    current_ts >= ts + ttl, with Go's wrapping uint64 addition. *)
+    current_ts >= ts + ttl, with Go's wrapping uint64 addition -- for a lock
+    whose transaction has no record on the key (always the case without
+    storage faults, C19_lock_never_reappears; with its commit record present
+    the status check removes the left-behind lock and reports the commit). *)
 Theorem C19_ttl : forall s primary l lts cur caller rb,
-  get_lock s primary = Some l -> l_ts l = lts ->
+  get_lock s primary = Some l -> l_ts l = lts -> get_write_by_start_ts s primary lts = None ->
   (cr_action (snd (check_txn_status current s primary lts cur caller rb)) = ActTTLExpireRollback <->
    l_ttl l <> 0 /\ wrap64 (l_ts l + l_ttl l) <= cur).
 Proof. exact ttl_rule. Qed.
@@ -67,7 +71,8 @@ Proof. exact min_commit_rule. Qed.
 Print Assumptions C19_min_commit.
 
 Theorem C19_min_commit_push : forall s primary l lts cur caller rb,
-  get_lock s primary = Some l -> l_ts l = lts -> is_lock_expired l cur = false ->
+  get_lock s primary = Some l -> l_ts l = lts -> get_write_by_start_ts s primary lts = None ->
+  is_lock_expired l cur = false ->
   0 < caller -> l_min_commit l < wrap64 (caller + 1) ->
   let '(s', r) := check_txn_status current s primary lts cur caller rb in
   cr_action r = ActMinCommitPushed /\
